@@ -13,7 +13,7 @@ def run(tier, seed):
     return core_check.run_check(
         PID, tier, seed, mc, rp,
         level_text='TLC exhaustive + replay of every behaviour of the dumped state graphs into the real Process',
-        assumptions=C.ASSUMPTIONS + {extra_assume},
+        assumptions=C.ASSUMPTIONS + {extra_assume},{suite}
         rule={rule!r})
 
 
@@ -136,5 +136,7 @@ checks = {
 if __name__ == '__main__':
     import os
     here = os.path.dirname(os.path.abspath(__file__))
+    SUITE = {'c02': "lambda e: e[0] == 'obs'", 'c04': "lambda e: e[0] in ('cs', 'ce') and e[1] == 'kill'"}
     for name, c in checks.items():
+        c['suite'] = ('\n        suite_traces=%s,' % SUITE[name]) if name in SUITE else ''
         open(os.path.join(here, name + '.py'), 'w').write(tmpl.format(**c))
